@@ -3,6 +3,7 @@ package main
 import (
 	"fmt"
 	"io"
+	"sync"
 
 	"github.com/ChrisTrenkamp/xsel/node"
 	"github.com/ChrisTrenkamp/xsel/store"
@@ -174,6 +175,10 @@ type Built struct {
 	ID     map[store.Cursor]int
 	Doc    Doc
 	Faults []string // structural disagreements between the real tree and the abstract document
+
+	twinOnce sync.Once
+	twinB    *Built
+	twinErr  error
 }
 
 func buildFromEvents(evs []Event) (store.Cursor, error) {
@@ -190,6 +195,12 @@ func Build(d Doc) (*Built, error) {
 	b := &Built{Root: root, ByID: map[int]store.Cursor{}, ID: map[store.Cursor]int{}, Doc: d}
 	b.correlate(root)
 	return b, nil
+}
+
+// twin: a second, independent tree built from the same abstract document (built once, on demand)
+func (b *Built) twin() (*Built, error) {
+	b.twinOnce.Do(func() { b.twinB, b.twinErr = Build(b.Doc) })
+	return b.twinB, b.twinErr
 }
 
 func (b *Built) fault(f string, a ...any) { b.Faults = append(b.Faults, fmt.Sprintf(f, a...)) }
